@@ -73,7 +73,12 @@ Definition physical (variant : N) (flushcap : bool) (ls : list layer) (c n : nat
   if (n =? 0) || (r <=? n) then
     rev rest ++ (if N.eqb variant 0 then [[]; disk] else [disk])
   else if flushcap then
-    rev (skipn (r - n) rest) ++ [[]; fold_left flush_states (firstn (r - n) rest) disk]
+    (* pathdb: each capped layer is merged into the (empty) buffer and flushed at once;
+       legacy: the accumulator layer is flattened first, then written by one diffToDisk *)
+    if N.eqb variant 0
+    then rev (skipn (r - n) rest) ++ [[]; fold_left flush_states (firstn (r - n) rest) disk]
+    else rev (skipn (r - n) rest)
+           ++ [flush_states disk (fold_left merge_states (firstn (r - n) rest) [])]
   else
     let buffer := fold_left merge_states (firstn (r - n) rest) [] in
     rev (skipn (r - n) rest) ++ [buffer; disk].
@@ -86,7 +91,10 @@ Definition C22_run (c : sx) : sx :=
       | Some variant, Some kind, Some seek, Some acct, Some cc, Some n, Some wb, Some ls =>
           let proj := map (fun l => if N.eqb kind 0 then fst l else storage_of acct (snd l)) ls in
           if forallb (fun l => strictly_asc (key_list l)) proj then
-            let s := physical variant (N.eqb variant 0 && negb (N.odd wb)) proj cc n in
+            (* legacy: the disk layer produced by the initial (empty) generation keeps its
+               generator handle, which makes the first Cap persist the accumulator *)
+            let flushcap := if N.eqb variant 0 then negb (N.odd wb) else (cc =? 0) in
+            let s := physical variant flushcap proj cc n in
             if N.eqb variant 0
             then SL [enc_res (fast_iter s seek); enc_res (binary_iter s seek)]
             else SL [enc_res (fast_iter s seek)]
